@@ -39,7 +39,7 @@ def server_residue_part(chk):
     rng, thorough = chk.rng, chk.tier == "thorough"
     exe = vlib.build_srv()
     bad, nops = 0, 0
-    for k in range(24 if thorough else 8):
+    for k in range(30 if thorough else 12):
         g = srvgen.Gen(random.Random(chk.seed * 7919 + k), exe)
         h = g.run(250)
         if h.dead:
@@ -60,15 +60,20 @@ def server_residue_part(chk):
                 continue
             seen.append(d)
             israw = d[1][:3] == C.RAW_HEADER[:3]
-            if rng.random() < (0.9 if israw else 0.3):
-                # the tail of the datagram just handled (usually) or of an earlier one is what the filler leaves behind
+            plans = []
+            if israw:
+                # always: the same frame cut right after the magic / after the command byte, its own tail still in the buffer
+                plans += [(d, d, 3), (d, d, 4)]
+            if rng.random() < 0.3:
                 src2, victim = d if rng.random() < 0.75 else rng.choice(seen)
-                src, g0 = (src2, victim) if rng.random() < 0.7 else rng.choice(seen)
+                g = (src2, victim) if rng.random() < 0.7 else rng.choice(seen)
+                cut = rng.choice([1, 2, 3, 4, 5, 11, 12, 13, 14, 17, max(1, len(g[1]) - 5), max(1, len(g[1]) - 1)])
+                plans.append(((src2, victim), g, cut))
+            for (src2, victim), (src, g0), cut in plans:
                 hdr = bytes([0, 0, 0x80])
                 tailB = victim[3:] + bytes(rng.randrange(256) for _ in range(rng.choice([0, 0, 40])))
                 fa = hdr + b"\xa5" * len(tailB)
                 fb = hdr + tailB
-                cut = rng.choice([1, 2, 3, 3, 4, 5, 11, 12, 13, 14, 17, max(1, len(g0) - 5), max(1, len(g0) - 1)])
                 short = g0[:cut]
                 who = src if rng.random() < 0.7 else "4:0a63000%d:%d" % (rng.randrange(1, 9), 4000)
                 opsA += ["dns %s %s" % (who, vlib.hx(fa)), "dns %s %s" % (who, vlib.hx(short))]
@@ -78,6 +83,13 @@ def server_residue_part(chk):
         rb = vlib.run_lines(exe, opsB)
         nops += len(opsA) + len(opsB)
         if ra.rc or rb.rc:
+            # an abort in one of the two runs: find the datagram it died on; if only the genuine-residue run dies that IS residue dependence
+            r_, o_ = (rb, opsB) if rb.rc else (ra, opsA)
+            i = min(len(r_.lines), len(o_) - 1)
+            chk.violation("C12/C05 fails on the implementation: the server aborted (rc=%d, sanitizer or crash) on a %s-byte datagram following a filler datagram; with the other residue it %s\n%s"
+                          % (r_.rc, len(vlib.unhx(o_[i].split()[2])) if o_[i].startswith("dns ") else "?", "also aborted" if (ra.rc and rb.rc) else "did not abort", r_.stderr[-1200:]),
+                          o_[:i + 1], key="c12:abort")
+            bad += 1
             continue
         for i in marks:
             if i < len(ra.lines) and i < len(rb.lines) and ra.lines[i] != rb.lines[i]:
